@@ -56,6 +56,7 @@ type Case struct {
 	Default  string    `json:"default,omitempty"` // decision for a record no rule names: "" = allow
 	Deny     []Deny    `json:"deny"`
 	Upgrade  bool      `json:"upgrade"`
+	Before   string    `json:"before,omitempty"` // an event of the endpoint's life played before the request: reset-transport | reset-twice | resync | flap
 	Observed *ObsWire  `json:"observed,omitempty"`
 }
 type ObsWire struct {
@@ -118,6 +119,10 @@ func (cs Case) readable() string {
 	for _, l := range cs.Client {
 		ls = append(ls, fmt.Sprintf("%q", rig.UnHex(l.N)+": "+rig.UnHex(l.V)))
 	}
+	before := ""
+	if cs.Before != "" {
+		before = "; before the request: " + cs.Before
+	}
 	dflt := cs.Default
 	if dflt == "" {
 		dflt = "allow"
@@ -126,7 +131,7 @@ func (cs Case) readable() string {
 	for _, d := range cs.Deny {
 		dn = append(dn, fmt.Sprintf("%s %s", d.D, d.readable()))
 	}
-	return fmt.Sprintf("authenticated as %s; client headers [%s]; policy [%s] else %s; upgrade=%v", cs.User.readable(), strings.Join(ls, ", "), strings.Join(dn, "; "), dflt, cs.Upgrade)
+	return fmt.Sprintf("authenticated as %s; client headers [%s]; policy [%s] else %s; upgrade=%v%s", cs.User.readable(), strings.Join(ls, ", "), strings.Join(dn, "; "), dflt, cs.Upgrade, before)
 }
 
 func (d Deny) readable() string {
@@ -216,12 +221,22 @@ func eval(c *rig.Ctx, cs Case) (verdict, Observed, modelOut) {
 		lines[i] = rig.UnHex(l.N) + ": " + rig.UnHex(l.V)
 	}
 	var obs Observed
+	if cs.Before != "" {
+		ready, problem := gw.lifecycle(cs.Before)
+		if !ready {
+			return verdict{kind: "inconclusive", what: "after " + cs.Before + ": " + problem}, obs, modelOut{}
+		}
+		if problem != "" {
+			return verdict{kind: "judge", class: "c02.lifecycle-error", what: fmt.Sprintf("%s failed: %s; %s", cs.Before, problem, cs.readable())}, obs, modelOut{}
+		}
+	}
 	msg, panicked := rig.Recover(func() { obs = gw.send(cs.User.info(), policy, lines, cs.Upgrade) })
 	if panicked {
 		return verdict{kind: "diff", class: "c02.harness-panic", what: "harness panicked: " + msg}, obs, modelOut{}
 	}
 	if obs.Err != "" {
-		return verdict{kind: "diff", class: "c02.io", what: "request failed: " + obs.Err}, obs, modelOut{}
+		// a time-out or a broken connection (load, scheduling): inconclusive, never a failure
+		return verdict{kind: "inconclusive", what: "request failed: " + obs.Err}, obs, modelOut{}
 	}
 	ow := &ObsWire{Upstream: [][]Line{}}
 	for _, req := range obs.Upstream {
@@ -398,6 +413,13 @@ func shrink(c *rig.Ctx, cs Case, v verdict) Case {
 			cs = x
 		}
 	}
+	if cs.Before != "" {
+		x := cs
+		x.Before = ""
+		if fails(x) {
+			cs = x
+		}
+	}
 	return cs
 }
 
@@ -405,7 +427,7 @@ var reported = map[string]bool{}
 
 // judge failures and correspondence differences recorded so far: differences are recorded a few times only (the search for an
 // input on which the PROPERTY fails goes on), judge failures stop the run after a few witnesses
-var nJudge, nDiff int
+var nJudge, nDiff, nInconclusive int
 
 // runCase evaluates, counts and (on failure) shrinks and records one case.
 func runCase(c *rig.Ctx, cs Case, origin string) bool {
@@ -446,7 +468,18 @@ func runCase(c *rig.Ctx, cs Case, origin string) bool {
 		return map[string]interface{}{"case": cs.readable(), "gateway_status": obs.Status, "upstream_received": obs.Upstream}
 	})
 	c.Count(fmt.Sprintf("client-lines=%d", len(cs.Client)))
+	if cs.Before != "" {
+		c.Count("before:" + cs.Before)
+	}
 	if v.ok {
+		return true
+	}
+	if v.kind == "inconclusive" {
+		c.Count("inconclusive")
+		nInconclusive++
+		if nInconclusive <= 3 {
+			c.Note("inconclusive case (not a failure): %s", v.what)
+		}
 		return true
 	}
 	if v.kind == "judge" && allKnown(v.classes) {
